@@ -388,11 +388,11 @@ theorem assemble_ok_inv {src : Source} {fix : Bool} {bm : BM} (h : assemble src 
       src.rsize = some rsize ∧ 0 < rsize ∧ rsize < 256 ∧
       src.sections.any (fun s => hasDup (allLabels s.lines)) = false ∧
       mapE (secPrep fix src) src.sections = .ok ss ∧
-      mapE (cpBody ss) src.cps = .ok bodies ∧
+      mapE (cpBody ss) src.procs = .ok bodies ∧
       bodies.any (fun rs => (regsOf rs).isEmpty) = false ∧
       mapE (mkCP rsize) bodies = .ok cps ∧
       bm = { rsize := rsize, cps := cps, procs := List.range cps.length,
-             topo := mkTopo cps (pairs src.cps src.ioatts) } := by
+             topo := mkTopo cps (pairs src.procs src.ioatts) } := by
   unfold assemble at h
   by_cases hd : src.sections.any (fun s => hasDup (allLabels s.lines)) = true
   · simp [hd] at h
@@ -401,7 +401,7 @@ theorem assemble_ok_inv {src : Source} {fix : Bool} {bm : BM} (h : assemble src 
     | error e => simp [hss] at h
     | ok ss =>
       simp only [hss] at h
-      cases hb : mapE (cpBody ss) src.cps with
+      cases hb : mapE (cpBody ss) src.procs with
       | error e => simp [hb] at h
       | ok bodies =>
         simp only [hb] at h
@@ -433,7 +433,7 @@ theorem findSection_mem {ss : List (String × List RLine)} {name : String} {rs :
 
 /-- every processor body of an accepted source comes from a section of the source -/
 theorem body_from_section {src : Source} {fix : Bool} {ss : List (String × List RLine)} {bodies : List (List RLine)}
-    (hss : mapE (secPrep fix src) src.sections = .ok ss) (hb : mapE (cpBody ss) src.cps = .ok bodies) :
+    (hss : mapE (secPrep fix src) src.sections = .ok ss) (hb : mapE (cpBody ss) src.procs = .ok bodies) :
     ∀ rs ∈ bodies, ∃ s ∈ src.sections, prepSection fix src.iomode s = .ok rs := by
   intro rs hrs
   obtain ⟨c, _, hc⟩ := all2_mem_right (mapE_ok hb) rs hrs
@@ -462,7 +462,7 @@ theorem assemble_wf {src : Source} {fix : Bool} {bm : BM} (h : assemble src fix 
     obtain ⟨s, hs, hp⟩ := body_from_section hss hb rs hrs
     exact wfCP_of_mkCP hmk hr (Nat.le_trans (prepSection_length hp) (hsz s hs))
   · unfold WfBM.wfTopo
-    obtain ⟨hwf, hprocs⟩ := mkTopo_wf cps (pairs src.cps src.ioatts)
+    obtain ⟨hwf, hprocs⟩ := mkTopo_wf cps (pairs src.procs src.ioatts)
     rw [Bool.and_eq_true]
     refine ⟨?_, wfB_of_WF hwf⟩
     simp only [WfBM.procPorts, hprocs, beq_iff_eq]
@@ -515,7 +515,7 @@ theorem mkCP_rejects_overflow {rsize : Nat} {rs : List RLine} {r : RLine} (hr : 
       exact this
 
 theorem assemble_rejects_overflow {src : Source} {fix : Bool} {rs : List RLine}
-    (hbody : ∀ ss, mapE (secPrep fix src) src.sections = .ok ss → ∃ c ∈ src.cps, cpBody ss c = .ok rs)
+    (hbody : ∀ ss, mapE (secPrep fix src) src.sections = .ok ss → ∃ c ∈ src.procs, cpBody ss c = .ok rs)
     {r : RLine} (hr : r ∈ rs) (pre post : List Arg) (n : Nat) (hargs : r.args = pre ++ .num n :: post)
     (fs : List FieldKind) (f : FieldKind) (hlay : layout r.op = some fs) (hlen : lenientArity r.op = false)
     (hf : fs[pre.length]? = some f)
